@@ -355,11 +355,18 @@ func runC06(r *Run) error {
 	ctx := context.Background()
 	master := r.Rng
 	defer func() { r.Rng = master }()
-	for hi := 0; hi < hists; hi++ {
+	// one more history at the end has a LONG log (more entries than the 64 references an entry
+	// carries, than any batch or window size in the code): 70 keys put once, then deletes and
+	// overwrites of keys that were put long before, then replication of all of it
+	for hi := 0; hi < hists+1; hi++ {
 		if !kvHistoryRng(r, master, hi) {
 			continue
 		}
+		long := hi == hists
 		n := 1 + r.Rng.Intn(3)
+		if long {
+			n = 2
+		}
 		s, err := NewScen(n, "keyvalue", nil)
 		if err != nil {
 			return err
@@ -367,7 +374,13 @@ func runC06(r *Run) error {
 		u := s.NewUniverse()
 		nk := 1 + r.Rng.Intn(len(pool))
 		keys := pool[:nk]
+		if long {
+			keys = []string{"L000", "L001", "L035", "L063", "L064", "L069", "a"}
+		}
 		steps := 8 + r.Rng.Intn(18)
+		if long {
+			steps = 0
+		}
 		prev := make([]map[string][]byte, n)
 		for i := range prev {
 			prev[i] = map[string][]byte{}
@@ -442,6 +455,39 @@ func runC06(r *Run) error {
 				r.Count("sync")
 				observe(rep, st, "sync", false)
 			}
+		}
+		if long {
+			kv := s.Stores[0].(iface.KeyValueStore)
+			for i := 0; i < 70; i++ {
+				if _, err := kv.Put(ctx, fmt.Sprintf("L%03d", i), []byte(fmt.Sprintf("w%d", i%7))); err != nil {
+					return err
+				}
+			}
+			observe(0, 0, "put of 70 keys", false)
+			for i, k := range []string{"L000", "L063", "L035"} {
+				if _, err := kv.Delete(ctx, k); err != nil {
+					return err
+				}
+				observe(0, 1+i, "del of a key put long before", false)
+			}
+			if _, err := kv.Put(ctx, "L001", []byte("v3")); err != nil {
+				return err
+			}
+			if _, err := kv.Put(ctx, "L000", []byte("v1")); err != nil {
+				return err
+			}
+			if _, err := kv.Delete(ctx, "L064"); err != nil {
+				return err
+			}
+			observe(0, 4, "overwrite, re-put and del in a long log", false)
+			if err := s.SyncFrom(1, 0); err != nil {
+				return err
+			}
+			if !s.Settle() {
+				r.AddDirect("hang:sync", "replication did not settle", map[string]interface{}{"hist": hi, "state": sim.LastSettleState})
+			}
+			observe(1, 5, "sync of a long log", false)
+			r.Count("long-log-history")
 		}
 		kvProbeEnd(hi)
 		r.Count(fmt.Sprintf("replicas=%d", n))
